@@ -5,22 +5,22 @@ Import ListNotations.
 
 (** ** the as-coded check is refuted by the always-block witness (and two neighbours) *)
 
-Lemma check_refuted :
-  exists D root, check D = Accept /\ drivers D root = 2.
+Lemma check_old_refuted :
+  exists D root, check_old D = Accept /\ drivers D root = 2.
 Proof. exists witness, 1%positive. vm_compute. split; reflexivity. Qed.
 
-Lemma check_refuted_users :
-  exists D root, check D = Accept /\ users D root = 2.
+Lemma check_old_refuted_users :
+  exists D root, check_old D = Accept /\ users D root = 2.
 Proof. exists witness_var, 2%positive. vm_compute. split; reflexivity. Qed.
 
-Lemma check_refuted_input :
-  exists D, check D = Accept /\ no_input_writtenb D = false.
+Lemma check_old_refuted_input :
+  exists D, check_old D = Accept /\ no_input_writtenb D = false.
 Proof. exists witness_inst. vm_compute. split; reflexivity. Qed.
 
 (** the corrected discipline rejects all three *)
-Lemma check_fixed_rejects_witnesses :
-  check_fixed witness = Reject RMultiWrite /\ check_fixed witness_var = Reject RVarInConc
-  /\ check_fixed witness_inst = Reject RInputWritten.
+Lemma check_rejects_witnesses :
+  check witness = Reject RMultiWrite /\ check witness_var = Reject RVarInConc
+  /\ check witness_inst = Reject RInputWritten.
 Proof. vm_compute. repeat split. Qed.
 
 (** ** small facts *)
@@ -120,12 +120,12 @@ Lemma inst_ports_ok m n outs : forall w w',
   (forall r, 0 < cnt r outs -> has r w' = true) /\
   (forall r, has r w = true -> cnt r outs = 0) /\
   (forall r, cnt r outs <= 1) /\
-  (m = Fixed -> forall rk, In rk outs -> is_input (snd rk) = false).
+  (m = Current -> forall rk, In rk outs -> is_input (snd rk) = false).
 Proof.
   induction outs as [|[root k] outs IH]; intros w w' H; simpl in H.
   - inversion H; subst w'. unfold cnt; simpl.
     split; [auto|]. split; [intros; lia|]. split; [auto|]. split; [auto|]. intros _ ? [].
-  - assert (Hk : (m = Fixed -> is_input k = false) /\
+  - assert (Hk : (m = Current -> is_input k = false) /\
                  match find root w with
                  | Some _ => False
                  | None => inst_ports m n outs ((root, OInst n) :: w) = inr w'
@@ -159,7 +159,7 @@ Lemma inst_loop_ok m insts : forall n w,
   inst_loop m n insts w = Accept ->
   (forall r, has r w = true -> cnt r (concat insts) = 0) /\
   (forall r, cnt r (concat insts) <= 1) /\
-  (m = Fixed -> forall rk, In rk (concat insts) -> is_input (snd rk) = false).
+  (m = Current -> forall rk, In rk (concat insts) -> is_input (snd rk) = false).
 Proof.
   induction insts as [|outs insts IH]; intros n w H; simpl in H.
   - unfold cnt; simpl. split; [auto|]. split; [auto|]. intros _ ? [].
@@ -190,8 +190,8 @@ Proof.
   intros _. exists st. auto.
 Qed.
 
-Theorem check_fixed_sound D :
-  check_fixed D = Accept ->
+Theorem check_sound D :
+  check D = Accept ->
   forall root, drivers D root <= 1 /\ (is_var_or_temp D root -> users D root <= 1) /\ no_input_written D.
 Proof.
   intros H root. apply check_with_accept in H. destruct H as (st & Hrun & Hinst & _).
@@ -230,11 +230,11 @@ Proof.
 Qed.
 
 (** the converse reading: a conflicting design is rejected *)
-Theorem check_fixed_complete D root :
+Theorem check_complete D root :
   1 < drivers D root \/ 1 < users D root \/ no_input_writtenb D = false ->
-  check_fixed D <> Accept.
+  check D <> Accept.
 Proof.
-  intros H Hacc. destruct (check_fixed_sound D Hacc root) as (Hd & Hu & (I1 & I2)).
+  intros H Hacc. destruct (check_sound D Hacc root) as (Hd & Hu & (I1 & I2)).
   destruct H as [H|[H|H]].
   - lia.
   - assert (Hv : is_var_or_temp D root).
@@ -253,16 +253,16 @@ Proof.
 Qed.
 
 (** the executable spec used by the harness is implied as well *)
-Corollary check_fixed_conflict_free D : check_fixed D = Accept -> conflict_freeb D = true.
+Corollary check_conflict_free D : check D = Accept -> conflict_freeb D = true.
 Proof.
   intros H. unfold conflict_freeb. apply andb_true_intro. split.
-  - apply forallb_forall. intros r _. destruct (check_fixed_sound D H r) as (Hd & Hu & _).
+  - apply forallb_forall. intros r _. destruct (check_sound D H r) as (Hd & Hu & _).
     apply andb_true_intro. split; apply Nat.leb_le; [exact Hd|].
     destruct (filter (uses_root r) (units D)) as [|oe l] eqn:E.
     + unfold users. rewrite E. simpl. lia.
     + apply Hu. exists oe. assert (Hin : In oe (filter (uses_root r) (units D))) by (rewrite E; left; reflexivity).
       apply filter_In in Hin. exact Hin.
-  - destruct (check_fixed_sound D H 1%positive) as (_ & _ & (I1 & I2)).
+  - destruct (check_sound D H 1%positive) as (_ & _ & (I1 & I2)).
     unfold no_input_writtenb. apply andb_true_intro. split; apply forallb_forall.
     + intros oe Hin. destruct (is_write (e_acc (snd oe))) eqn:Hw; [|reflexivity]. rewrite (I1 oe Hin Hw). reflexivity.
     + intros rk Hin. rewrite (I2 rk Hin). reflexivity.
@@ -281,12 +281,12 @@ Definition sample_ok : design :=
                                 {| e_root := 2; e_acc := AR; e_kind := KSignal |} ] |} ];
      d_subs := [ BEntity [ (5%positive, KSignal) ]; BBlock [] [ BEntity [ (6%positive, KPortOut) ] ] ] |}.
 
-Example check_fixed_sound_nonvacuous :
-  check_fixed sample_ok = Accept /\ check sample_ok = Accept
+Example check_sound_nonvacuous :
+  check sample_ok = Accept /\ check_old sample_ok = Accept
   /\ drivers sample_ok 2 = 1 /\ drivers sample_ok 6 = 1 /\ users sample_ok 3 = 1.
 Proof. vm_compute. repeat split. Qed.
 
-Example check_fixed_complete_nonvacuous :
+Example check_complete_nonvacuous :
   1 < drivers witness 1 /\ 1 < users witness_var 2 /\ no_input_writtenb witness_inst = false.
 Proof. vm_compute. repeat split; lia. Qed.
 
@@ -427,12 +427,12 @@ Qed.
 
 (** no over-rejection in the corrected model: a conflict-free design that respects the
     context-local rules of ConvertInstance is accepted *)
-Theorem check_fixed_exact D :
+Theorem check_exact D :
   (forall root, drivers D root <= 1 /\ users D root <= 1) -> no_input_written D ->
-  locally_ok Fixed D = true -> check_fixed D = Accept.
+  locally_ok Current D = true -> check D = Accept.
 Proof.
-  intros Hdu [I1 I2] Hl. unfold check_fixed, check_with. unfold locally_ok in Hl.
-  destruct (first_reason (ci_ctx Fixed) (all_contexts D)); [discriminate|].
+  intros Hdu [I1 I2] Hl. unfold check, check_with. unfold locally_ok in Hl.
+  destruct (first_reason (ci_ctx Current) (all_contexts D)); [discriminate|].
   destruct (first_reason front_ctx (all_contexts D)) eqn:Hfront; [discriminate|].
   fold (units D).
   assert (Hown : forall r o o' e e', In (o, e) (units D) -> In (o', e') (units D) ->
@@ -450,7 +450,7 @@ Proof.
   destruct (run_complete (units D) I1 Hown Huse (units D) [] ustate0 eq_refl) as (st & Hr & [Iw _]).
   { split; intros r o H; discriminate H. }
   rewrite Hr.
-  assert (Hacc : inst_loop Fixed 0 (all_insts D) (written_in st) = Accept); [|rewrite Hacc; reflexivity].
+  assert (Hacc : inst_loop Current 0 (all_insts D) (written_in st) = Accept); [|rewrite Hacc; reflexivity].
   apply inst_loop_complete.
   - exact I2.
   - intros r Hh. unfold has in Hh. destruct (find r (written_in st)) as [o|] eqn:F; [|discriminate].
@@ -464,11 +464,11 @@ Proof.
   - intros r. destruct (Hdu r) as [Hd _]. unfold drivers in Hd. fold (inst_outs D). fold (cnt r (inst_outs D)) in Hd. lia.
 Qed.
 
-Example check_fixed_exact_nonvacuous :
-  (forall root, drivers sample_ok root <= 1 /\ users sample_ok root <= 1) /\ locally_ok Fixed sample_ok = true.
+Example check_exact_nonvacuous :
+  (forall root, drivers sample_ok root <= 1 /\ users sample_ok root <= 1) /\ locally_ok Current sample_ok = true.
 Proof.
   split; [|reflexivity]. intros root.
-  assert (H := check_fixed_sound sample_ok eq_refl root). destruct H as (Hd & Hu & _).
+  assert (H := check_sound sample_ok eq_refl root). destruct H as (Hd & Hu & _).
   split; [exact Hd|].
   destruct (filter (uses_root root) (units sample_ok)) as [|oe l] eqn:E.
   - unfold users. rewrite E. simpl. lia.
